@@ -243,7 +243,8 @@ def rule_dimensions(ctx):
 def run(ctx):
     rule_dimensions(ctx)
     from . import c15
-    c15.rule_axis_conditions(ctx, 'R02.10', files=('tree.c', 'gravity.c'), floor=1)   # a particle that left its cell in any direction is re-inserted: the multipole of a cell describes its contents
+    c15.rule_axis_conditions(ctx, 'R02.10', files=('tree.c', 'gravity.c'), floor=1)
+    c15.rule_cell_moments(ctx, 'R02.11')       # every cell the walk may accept as a monopole carries the mass and centre of mass of its contents   # a particle that left its cell in any direction is re-inserted: the multipole of a cell describes its contents
     rule_pair_domains(ctx)
     from . import indexspace
     indexspace.rule_index_spaces(ctx, 'R02.9')
